@@ -23,7 +23,7 @@ def inputs(rng, n):
 
 def run(res, args):
     res.rule = ("the real HandleMessages entry points of rtcmfilter and displayrtcm3 (reached with go test -overlay) on segment "
-                "streams with at least one message, writer latencies 0 / 0.2 / 2 / 20 ms per call, several input chunkings; "
+                "streams with at least one message, writer latencies 0 / 0.2 / 2 / 20 ms and 1.2 s per call, several input chunkings; "
                 "observation = bytes held by the writer at the instant the function returns and after quiescence; "
                 "non-trivial = latency > 0 and at least one message")
     res.assumptions = ["the writer latencies sample the schedules; the model's bad schedule (main returns while the writer still holds the "
@@ -50,6 +50,13 @@ def run(res, args):
         fcases.append("filter %s %d %d %d %s" % (gen.hx(s), rng.getrandbits(1), rng.getrandbits(1), lat, ch))
         dcases.append("display %s %d %s" % (gen.hx(s), lat, ch))
         meta.append((s, lat))
+    # a writer that blocks for seconds per call (the wait must not be bounded by a timer)
+    slow = [b"".join(gen.rand_frame(rng, small=True) for _ in range(3)) for _ in range(2 if res.tier == "quick" else 6)]
+    for s in slow:
+        fcases.append("filter %s 0 0 %d 4096" % (gen.hx(s), 1200000))
+        dcases.append("display %s %d 4096" % (gen.hx(s), 1200000))
+        meta.append((s, 1200000))
+    ins = ins + slow
     # expected output from sequential framing (model), cross-checked with the implementation's stream handler
     scases = ["stream %d debug %s" % (framing.T0, gen.hx(s)) for s in ins]
     simpl, smodel = framing.run_both(res, "stream", scases)
